@@ -283,7 +283,8 @@ def sugar_job(job):
         # And([a, b, c]) / And([a]*n) is never flattened by streamline (only 2-element Ands are), a chain of + is: with
         # an operand that is itself a flattenable And the two differ exactly as nested-vs-flat And do (registered
         # finding nested_and_differs_from_flat; equality under flattenHyp is the business of flat_job)
-        for v in (job["operands"][:3] if "~And" in job["form"] else job["operands"][:1]):
+        ops = job.get("operands") or []
+        for v in (ops[:3] if "~And" in job["form"] else ops[:1]):
             o = b.env[v]
             if isinstance(o, pp.And) and not o.parseAction and o.resultsName is None:
                 out["skip"] = "region:nested_and_differs_from_flat"
@@ -305,7 +306,8 @@ def sugar_job(job):
             continue
         out["n"] += 1
         if o1 != o2:
-            out["mism"].append({"prog": job["prog"], "form": job["form"], "input": s, "sugar": o1, "spelled": o2})
+            out["mism"].append({"prog": job["prog"], "form": job["form"], "input": s, "sugar": o1, "spelled": o2,
+                                "operands": job.get("operands")})
     return out
 
 
@@ -373,7 +375,7 @@ def run_sugar(ctx, jobs, stream="sugar"):
             continue
         seen.add(f)
         ctx.fail_input("sugar form parses differently from its spelled-out form",
-                       {"prog": m["prog"], "form": m["form"], "input": m["input"], "kind": "sugar"},
+                       {"prog": m["prog"], "form": m["form"], "input": m["input"], "kind": "sugar", "operands": m.get("operands")},
                        m["spelled"], m["sugar"], theorem="PP.Parse.sim_parse_eq (" + m["form"] + ")",
                        how="harness.props.c12.sugar_job")
     return bad_shape, mism
@@ -639,7 +641,7 @@ def compose_steps(rng, pg, n_steps):
             a = pick()
             add([v, op, a], True if op in ("Opt", "FollowedBy") else nullable[a])
         elif op == "Combine":
-            a = pick()
+            a = pick_no_each()   # Combine(adjacent=True) copies its operand (leave_whitespace)
             add([v, "Combine", a, {"adjacent": rng.random() < 0.5}], nullable[a])
         elif op == "DelimitedList":
             a = pick(nonnull=True)
@@ -719,22 +721,28 @@ def pool_job(job):
 
     def stale_savelist(e, seen):
         """region of the registered finding streamline_recomputes_saveAsList: MatchFirst/Or.streamline recompute
-        saveAsList, and wrappers copy it at construction: the SHAPE of a named result (scalar vs list) of a wrapper
-        depends on whether the operand had been streamlined when the wrapper was built"""
+        saveAsList (and skipWhitespace), and wrappers copy them at construction: the SHAPE of a named result (scalar vs
+        list) of a wrapper - resp. its whitespace skipping - depends on whether the operand had been streamlined when
+        the wrapper was built. Full traversal (no short-circuit): both attributes are looked at everywhere."""
         if id(e) in seen:
             return False
         seen.add(id(e))
-        if isinstance(e, (pp.MatchFirst, pp.Or)) and e.exprs and bool(e.saveAsList) != any(x.saveAsList for x in e.exprs):
-            return True
-        if isinstance(e, (pp.MatchFirst, pp.Or)) and e.exprs and bool(e.skipWhitespace) != all(x.skipWhitespace for x in e.exprs):
-            stale_ws.append(1)
-        return any(stale_savelist(x, seen) for x in corr_parse._children(pp, e))
+        r = False
+        if isinstance(e, (pp.MatchFirst, pp.Or)) and e.exprs:
+            if bool(e.saveAsList) != any(x.saveAsList for x in e.exprs):
+                r = True
+            if bool(e.skipWhitespace) != all(x.skipWhitespace for x in e.exprs):
+                stale_ws.append(1)
+        for x in corr_parse._children(pp, e):
+            if stale_savelist(x, seen):
+                r = True
+        return r
 
     stale_ws = []
 
     try:
         seen_ = set()
-        names_region = any(stale_savelist(b0.env[v], seen_) for v in members)
+        names_region = any([stale_savelist(b0.env[v], seen_) for v in members])
     except RecursionError:
         names_region = True
     if names_region:
@@ -1099,7 +1107,7 @@ def replay(data):
         c = data["case"]
         k = c.get("kind")
         if k == "sugar":
-            r = sugar_job(dict(prog=c["prog"], form=c["form"], inputs=[c["input"]]))
+            r = sugar_job(dict(prog=c["prog"], form=c["form"], inputs=[c["input"]], operands=c.get("operands")))
             return bool(r["mism"])
         if k in ("flat", "flat-witness"):
             r = flat_job(dict(prog=c["prog"], inputs=[c["input"]]))
